@@ -199,6 +199,20 @@ theorem totals_conserved (flux : FluxFn ℝ) (pr : Params ℝ) (limiter : HV ℝ
     | cons a l ih => simp
   rw [hz]; ring
 
+/-- non-vacuity of the hypotheses of `totals_conserved`: a cell of unit mass and energy, no faces -/
+example (flux : FluxFn ℝ) (pr : Params ℝ) (limiter : HV ℝ → Grad ℝ) (predict : HV ℝ → Q ℝ) :
+    let h : HV ℝ := ⟨⟨1, ⟨0, 0, 0⟩, 1⟩, Grad.zero, ⟨0, ⟨0, 0, 0⟩, 0⟩, ⟨0, ⟨0, 0, 0⟩, 0⟩,
+      ⟨1, ⟨0, 0, 0⟩, 1⟩, ⟨0, ⟨0, 0, 0⟩, 0⟩, ⟨0, 0, 0⟩, 0⟩
+    let s : Grid (HV ℝ) := fun _ => h
+    (∀ x ∈ [((0, 0, 0) : Cell)], (s x).dcons = ⟨0, ⟨0, 0, 0⟩, 0⟩ ∧ (s x).acc = ⟨0, 0, 0⟩ ∧
+      (s x).eterm = 0) ∧
+    ∀ x ∈ [((0, 0, 0) : Cell)], (updateConservedTag pr.dmax
+      (hydroStepFlux flux pr limiter predict [] [] s x) pr.dt).2 = 0 := by
+  intro h s
+  refine ⟨fun x _ => ⟨rfl, rfl, rfl⟩, fun x _ => ?_⟩
+  simp only [hydroStepFlux, runOps, List.foldl_nil, mapCells, updateConservedTag, s, h, V3.dot,
+    lit0]
+  norm_num
 theorem ngbUp_valid {G : Layout} {ax : Axis} {X Y : Loc} (hX : valid G X = true)
     (h : ngbUp G ax X = some Y) : valid G Y = true := by
   unfold ngbUp at h
